@@ -56,6 +56,15 @@ def prog_cases(seed, n, tier):
         cases.append([("rule", "initial", ("choice", "c", "d"), ()),
                       ("rule", part, ("tel", fa), (("atom", "pos", "c", 0) if part == "initial" else ("init", "pos", "c"),)),
                       ("rule", part, ("tel", fb), (("atom", "pos", "d", 0) if part == "initial" else ("init", "pos", "d"),))])
+    # one atom of a head formula is a fact and another rule depends on the other atom (D14: the grounder drops the disjunctive
+    # domain rule of the formula as soon as one of its atoms is a fact, and with it the knowledge about the other atoms)
+    A = lambda x: ("a", x)
+    for op in (lambda l, r: ("rel", l, r), lambda l, r: ("unt", l, r), lambda l, r: ("b", "or", l, r), lambda l, r: ("b", "and", l, r),
+               lambda l, r: ("seqn", False, l, r), lambda l, r: ("b", "or", ("next", 1, False, l), r)):
+        for fact in ("a", "b"):
+            for part in ("initial", "always", "dynamic"):
+                cases.append([("rule", part, ("tel", op(A("a"), A("b"))), ()), ("rule", "always", ("atom", fact, 0), ()),
+                              ("rule", "always", ("atom", "c", 0), (("atom", "pos", "b" if fact == "a" else "a", 0),))])
     # interactions: head atoms that are facts, several head formulas sharing a state, equal formulas written differently
     A = lambda x: ("a", x)
     cases += [
